@@ -43,10 +43,21 @@ Definition contexts : list (cell -> cell) := [
 Definition leaves : list cell := [callk; callk2].
 
 Definition depth1 : list cell := flat_map (fun c => map c leaves) contexts.
-(* deeper compositions are enumerated over one leaf *)
-Definition depth1k : list cell := map (fun c => c callk) contexts.
-Definition depth2 : list cell := flat_map (fun c => map c depth1k) contexts.
-Definition depth3 : list cell := flat_map (fun c => map c depth2) contexts.
+(* Deeper compositions over one leaf.  Depth two: one representative context per
+   derived form (if, cond, case, and, or, when, let, named let, begin) at both levels;
+   depth three: the forms the prelude implements by recursive macros or by
+   (lambda () ...) thunks (cond, case, and, let, begin) at all three levels.  Macro
+   expansion inside vm_compute costs ~0.5 s per depth-three form, which bounds what
+   is affordable here; the differential check of C04 covers the rest of the product. *)
+Definition core_contexts : list (cell -> cell) :=
+  map (fun i => nth i contexts (fun h => h)) [0; 4; 8; 10; 11; 12; 14; 17; 18]%nat.
+Definition inner_contexts : list (cell -> cell) :=
+  map (fun i => nth i contexts (fun h => h)) [4; 8; 10; 14; 18]%nat.
+Definition depth2 : list cell :=
+  flat_map (fun c1 => map (fun c2 => c1 (c2 callk)) core_contexts) core_contexts.
+Definition depth3 : list cell :=
+  flat_map (fun c1 => flat_map (fun c2 => map (fun c3 => c1 (c2 (c3 callk))) inner_contexts) inner_contexts)
+           inner_contexts.
 
 (* (define (f x y) FORM): FORM is the last body expression *)
 Definition wrap (form : cell) : cell :=
